@@ -681,6 +681,9 @@ def _is_task_command(args):
 def _sh_fork_exec(*a):
     s = CUR
     if s is None or not is_main() or not _is_task_command(a[0]):
+        if s is not None:
+            # a real helper process (tar): its exec-error pipe is read with a real blocking read
+            s.real_fds.add(a[12])
         return REAL.fork_exec(*a)
     pid = s.k_fork_exec(*a)
     s.after_call()
@@ -757,7 +760,7 @@ def _sh_getsignal(sig):
 
 def _sh_read(fd, n):
     s = CUR
-    if s is None or not is_main() or s.in_cb:
+    if s is None or not is_main() or s.in_cb or fd in s.real_fds:
         return REAL.read(fd, n)
     r, _, _ = select.select([fd], [], [], 0)
     if not r:
@@ -974,6 +977,7 @@ class Sim:
         self.block_iters = 0
         self.plan_async_keys = None
         self.n_cap = 3_000_000
+        self.real_fds = set()
 
     def count(self, key, k=1):
         self.stats[key] = self.stats.get(key, 0) + k
@@ -1655,7 +1659,10 @@ def tree_of(path):
                 try:
                     with open(full, "rb") as fh:
                         data = fh.read()
-                    if f in ("args.json", "options.json") and len(data) < 100000:
+                    if f.startswith("cond-archive+") and f.endswith(".tar.gz"):
+                        # gzip/tar headers carry real wall-clock times: not part of the simulated state
+                        out[r] = ("f", "<archive>", -1)
+                    elif f in ("args.json", "options.json") and len(data) < 100000:
                         out[r] = ("f", hashlib.sha1(data).hexdigest(), len(data), data.decode("utf-8", "replace"))
                     else:
                         out[r] = ("f", hashlib.sha1(data).hexdigest(), len(data))
